@@ -288,7 +288,16 @@ func runC07(c *Ctx) {
 			}
 		}
 	} else {
-		ps = append(fixedPrograms(), genPrograms(c.Rng, ngen)...)
+		// programs that may hang a broken interpreter (the infinite group, "def f: f; f" onwards) go last
+		fx := fixedPrograms()
+		cut := len(fx)
+		for i, p := range fx {
+			if p.src == "def f: f; f" {
+				cut = i
+				break
+			}
+		}
+		ps = append(append(append(ps, fx[:cut]...), genPrograms(c.Rng, ngen)...), fx[cut:]...)
 	}
 	seen := map[string]bool{}
 	type result struct {
@@ -320,9 +329,9 @@ func runC07(c *Ctx) {
 			for _, k := range r.kinds {
 				c.Count(k)
 			}
-		case <-time.After(20 * time.Second):
+		case <-time.After(10 * time.Second):
 			// a Next call that neither returns nor polls the context: the loop avoids the poll
-			c.Violation("hang\t%s\t%s\tNext did not return within 20s under a context cancelled at poll <= %d (a loop that does not poll ctx.Done())", p.src, p.input, capPolls)
+			c.Violation("hang\t%s\t%s\t-1\tNext did not return within 10s under a context cancelled at poll <= %d (a loop that does not poll ctx.Done())", p.src, p.input, capPolls)
 			c.Count("hang")
 			finishEarly(c)
 			return
